@@ -478,7 +478,8 @@ CLI = r"""
     }
     fn contains(h: &[u8], n: &[u8]) -> bool { h.windows(n.len()).any(|w| w == n) }
     let bin = std::env::var("CLI_BIN").expect("CLI_BIN");
-    let root = std::env::temp_dir().join(format!("rcgen-cli-replay-{}", std::process::id()));
+    // (CLI_OUT lies inside the scratch crate of this replay, which is removed afterwards whatever happens)
+    let root = std::path::PathBuf::from(std::env::var("CLI_OUT").expect("CLI_OUT")).join(format!("run-{}", std::process::id()));
     let _ = std::fs::remove_dir_all(&root);
     let run = |dir: &std::path::Path, extra: &[&str]| -> bool {
         let mut c = std::process::Command::new(&bin);
@@ -817,6 +818,7 @@ def replay(doc: dict, profiles=("dev", "release")) -> bool:
                 doc.setdefault("native", {})["note"] = "the CLI does not build: " + b.stderr[-400:]
                 return False
             env["CLI_BIN"] = str(scratch / "clitarget" / "debug" / "rustls-cert-gen")
+            env["CLI_OUT"] = str(scratch / "cliout")
         for prof in [p for p in ([], ["--release"]) if ("release" if p else "dev") in profiles]:
             p = subprocess.run(["cargo", "run", "--offline", "-q"] + prof, cwd=scratch, env=env, capture_output=True, text=True, timeout=900)
             doc.setdefault("native", {})["release" if prof else "dev"] = {"exit": p.returncode, "stderr_tail": p.stderr[-600:]}
